@@ -12,7 +12,7 @@ impl BytesMut {
     #[verifier::external_body]
     pub fn with_capacity(n: usize) -> (r: BytesMut) ensures r@ == Seq::<u8>::empty() { unimplemented!() }
     #[verifier::external_body]
-    pub fn from(b: Bytes) -> (r: BytesMut) ensures r@ == b@ { unimplemented!() }
+    pub fn from<T: BmSource>(b: T) -> (r: BytesMut) ensures r@ == b.bm_src() { unimplemented!() }
     #[verifier::external_body]
     pub fn remaining(&self) -> (r: usize) ensures r == self@.len(), r <= 0x7fff_ffff_ffff_ffff { unimplemented!() }
     #[verifier::external_body]
@@ -202,3 +202,8 @@ impl<'a> Cursor<'a> {
 /// May only be invoked where the cursor is dropped (checked by reading; see DESIGN.md 4).
 #[verifier::external_body]
 pub proof fn axiom_cursor_dropped(c: &Cursor) ensures c.fut() == c.data() {}
+
+/// what `BytesMut::from` accepts in the extracted code (From<Bytes>, From<&[u8]>)
+pub trait BmSource { spec fn bm_src(&self) -> Seq<u8>; }
+impl BmSource for Bytes { open spec fn bm_src(&self) -> Seq<u8> { self@ } }
+impl BmSource for &[u8] { open spec fn bm_src(&self) -> Seq<u8> { self@ } }
